@@ -30,6 +30,9 @@ type Req struct {
 	Target    string            `json:"target,omitempty"` // ACCOUNT | TRANSACTION
 	TargetID  string            `json:"target_id,omitempty"`
 	Key       string            `json:"key,omitempty"`
+	// ModelPostings / Unb: what the request means to the engine model when it is given as a script
+	ModelPostings []PostingReq `json:"model_postings,omitempty"`
+	Unb           bool         `json:"unb,omitempty"`
 }
 type PostingReq struct {
 	Source, Destination, Asset string
